@@ -7,6 +7,13 @@
 // subset sensitivity / Hessian x v / approximate Hessian x v (and their all-subsets and penalised forms) are requested
 // after set_up.  Every returned quantity is compared with the double-precision formula on the explicit P; a second
 // object executes the requests in reverse order and must return the same numbers.
+//
+// OBJECT HISTORIES (second half of the generated cases): the Case additionally has "hist" = list of earlier stages.
+// ONE object is configured with the settings of stage 0, set_up and asked the stage's requests; then, stage by stage,
+// exactly the setters whose value changed (plus redundant ones, "touch" bits) are called, set_up(target) is called again
+// (the class documents "After using any of these, you have to call set_up()") and the stage's requests are made.  After
+// every set_up the quantities must equal the explicit-P reference for the settings of THAT stage; after the last set_up
+// (the settings of the Case itself) they must in addition equal those of a freshly constructed twin.
 #include "explicit_p.h"
 #include "stir/ProjDataInMemory.h"
 #include "stir/ExamInfo.h"
@@ -56,6 +63,17 @@ no_exclude()
 {
   static const bool v = std::getenv("VERIF_NO_EXCLUDE") != nullptr;
   return v;
+}
+
+// is the input class of known finding 'id' part of the search? (all of them with VERIF_NO_EXCLUDE=1; development /
+// triage aid: VERIF_C05_INCLUDE=h1,h2 puts single classes back)
+bool
+known_in(const char* id)
+{
+  if (no_exclude())
+    return true;
+  const char* e = std::getenv("VERIF_C05_INCLUDE");
+  return e && std::strstr(e, id) != nullptr;
 }
 
 enum Kind
@@ -137,6 +155,8 @@ struct Ctx
   bool have_P0 = false;
   // configuration
   int N = 1, ms = 0;
+  int pass_ms = 0;   // the value handed to set_max_segment_num_to_process (ms, or literally -1 = "all segments of the data")
+  json cfg;          // the (stage) configuration this context was built from
   bool zero_ends = false, use_subset_sens = true, tof = false, use_tofsens = false, tofsens_eff = false, additive = false;
   int norm_kind = 0;
   bool norm_is_tof = false;
@@ -322,10 +342,16 @@ ref_sens(const Ctx& c, const int S)
 std::vector<double>
 ref_hess(const Ctx& c, const int S, const bool apply_zero_ends, Thr& t, std::vector<double>& scale)
 {
-  std::vector<double> num(c.y.size());
+  std::vector<double> num(c.y.size()), num_all(c.y.size());
   for (std::size_t b = 0; b < num.size(); ++b)
-    num[b] = ((apply_zero_ends && c.z[b]) ? 0. : c.y[b]) * c.fv[b];
-  const std::vector<double> nmax = vg_max(c, num);
+    {
+      num_all[b] = c.y[b] * c.fv[b];
+      num[b] = (apply_zero_ends && c.z[b]) ? 0. : num_all[b];
+    }
+  // the documented threshold "numerator <= 1e-6 x maximum of the numerator viewgram -> 0" is applied by
+  // accumulate_sub_Hessian_times_input BEFORE the end planes of segment 0 are zeroed (divide_and_truncate, then
+  // zero_end_sinograms): the maximum is the one of the whole viewgram, end planes included
+  const std::vector<double> nmax = vg_max(c, num_all);
   std::vector<double> w(num.size(), 0.), wabs(num.size(), 0.);
   std::vector<char> mask(num.size(), 0);
   for (std::size_t b = 0; b < num.size(); ++b)
@@ -503,9 +529,27 @@ nontof_sens_subsets_differ(const shared_ptr<ProjDataInfo>& pdi, const shared_ptr
   return owners(pdi) != owners(pdi0);
 }
 
-void
-build_ctx(const json& c, Ctx& x)
+// do two configurations have the same explicit matrix? (geometry, ray-tracing options and symmetry switches; the cache
+// switches do not change the rows)
+bool
+same_matrix_cfg(const json& a, const json& b)
 {
+  if (a["scanner"] != b["scanner"] || a["pdi"] != b["pdi"] || a["image"] != b["image"])
+    return false;
+  for (const char* k : { "num_tangential_LORs", "restrict_to_cylindrical_FOV", "s90", "s180", "swap_seg", "swap_s", "shift_z" })
+    if (a["matrix"][k] != b["matrix"][k])
+      return false;
+  return true;
+}
+
+// donor: a context whose explicit matrices may be re-used when the geometry is the same (histories)
+// sticky_tofsens: an earlier set_up of the SAME object found TOF-only normalisation data and switched the object's
+// "use time-of-flight sensitivities" on (set_up_before_sensitivity, info "Detected TOF normalisation data, so using
+// time-of-flight sensitivities"); the switch is a member of the object and stays on
+void
+build_ctx(const json& c, Ctx& x, const Ctx* donor = nullptr, const bool sticky_tofsens = false)
+{
+  x.cfg = c;
   x.sc = vg::make_scanner(c["scanner"]);
   if (x.sc->check_consistency() != Succeeded::yes)
     error("scanner inconsistent");
@@ -527,19 +571,28 @@ build_ctx(const json& c, Ctx& x)
   x.norm_kind = c["norm"];
   x.norm_is_tof = x.tof && c["norm_tof"].get<bool>() && x.norm_kind > 0;
   // set_up_before_sensitivity: a TOF-only norm switches use_tofsens on (documented by its info() message)
-  x.tofsens_eff = x.use_tofsens || x.norm_is_tof;
+  x.tofsens_eff = x.use_tofsens || x.norm_is_tof || (sticky_tofsens && x.tof);
+  // "convention: if -1, use get_max_segment_num()" (PoissonLogLikelihoodWithLinearModelForMeanAndProjData.h): cases with
+  // "ms_literal" hand the -1 to the setter instead of the resolved number
+  x.pass_ms = (max_seg < 0 && c.value("ms_literal", false)) ? -1 : x.ms;
   x.prior_kind = c["prior"];
   x.beta = c["beta"];
 
   shared_ptr<const ProjDataInfo> pdi_c = x.pdi;
   shared_ptr<const VoxelsOnCartesianGrid<float>> im_c = x.proto;
-  x.P = build_P(x, pdi_c, im_c);
+  const bool reuse = donor && same_matrix_cfg(c, donor->cfg);
+  x.P = reuse ? donor->P : build_P(x, pdi_c, im_c);
   const std::size_t nb = std::size_t(x.P.nbins());
   x.have_P0 = x.tof && !x.tofsens_eff;
   if (x.have_P0)
     {
-      shared_ptr<const ProjDataInfo> pdi0 = x.pdi->create_non_tof_clone();
-      x.P0 = build_P(x, pdi0, im_c);
+      if (reuse && donor->have_P0)
+        x.P0 = donor->P0;
+      else
+        {
+          shared_ptr<const ProjDataInfo> pdi0 = x.pdi->create_non_tof_clone();
+          x.P0 = build_P(x, pdi0, im_c);
+        }
     }
 
   // --- subset membership: documented as "determined as per detail::find_basic_vs_nums_in_subset()" with the
@@ -733,12 +786,13 @@ make_norm(const Ctx& x)
   return shared_ptr<BinNormalisation>();
 }
 
-// configure + set_up. sens_mode: 0 computed by set_up, 1 written to files by this object (still computed),
-// 2 read from the files written before (recompute_sensitivity=false)
+// configure a fresh object. sens_mode: 0 computed by set_up, 1 written to files by this object (still computed),
+// 2 read from the files written before (recompute_sensitivity=false); dir = file name prefix (".../" or ".../s2_")
+// tofsens: value of the parsed key "use time-of-flight sensitivities"
 void
-configure(Obj& o, const Ctx& x, const int N, const int sens_mode, const std::string& dir)
+configure(Obj& o, const Ctx& x, const int N, const int sens_mode, const std::string& dir, const bool tofsens)
 {
-  if (x.use_tofsens)
+  if (tofsens)
     {
       // "use time-of-flight sensitivities" has no setter: parse it, as a user would
       std::istringstream s("PoissonLogLikelihoodWithLinearModelForMeanAndProjData Parameters:=\n"
@@ -754,7 +808,7 @@ configure(Obj& o, const Ctx& x, const int N, const int sens_mode, const std::str
   if (x.norm_kind > 0)
     o.set_normalisation_sptr(make_norm(x));
   o.set_zero_seg0_end_planes(x.zero_ends);
-  o.set_max_segment_num_to_process(x.ms);
+  o.set_max_segment_num_to_process(x.pass_ms);
   o.set_use_subset_sensitivities(x.use_subset_sens);
   o.set_num_subsets(N);
   if (x.prior_kind == 1)
@@ -762,9 +816,9 @@ configure(Obj& o, const Ctx& x, const int N, const int sens_mode, const std::str
   if (sens_mode > 0)
     {
       if (x.use_subset_sens)
-        o.set_subsensitivity_filenames(dir + "/subsens_%d.hv");
+        o.set_subsensitivity_filenames(dir + "subsens_%d.hv");
       else
-        o.set_sensitivity_filename(dir + "/sens.hv");
+        o.set_sensitivity_filename(dir + "sens.hv");
       o.set_recompute_sensitivity(sens_mode == 1);
     }
 }
@@ -1094,36 +1148,11 @@ decode_ops(const json& ops, const Ctx& x)
   return l;
 }
 
+// the requests of a list on a set-up object, each compared with the reference of x, then the clause
+// "(gradient + sensitivity) - gradient = subset sensitivity"
 Result
-run_sequence(const Ctx& x, RefCache& rc, const OpList& l, const int mem_fill, const int sens_mode, const std::string& dir, Results& res,
-             const std::string& who, bool& rejected, std::string& reject_msg)
+run_requests(Obj& o, const Ctx& x, RefCache& rc, const OpList& l, Results& res, const std::string& who)
 {
-  Holder h;
-  h.make(mem_fill);
-  Obj& o = *h.o;
-  rejected = false;
-  shared_ptr<Target> target(x.proto->get_empty_copy());
-  target->set_exam_info(*pet_exam_info());
-  try
-    {
-      configure(o, x, x.N, sens_mode, dir);
-      if (o.set_up(target) != Succeeded::yes)
-        {
-          rejected = true;
-          reject_msg = "objective function set_up returned no";
-          return Result::pass();
-        }
-    }
-  catch (const stir_verif::AssertionFailure&)
-    {
-      throw;
-    }
-  catch (const std::exception& e)
-    {
-      rejected = true;
-      reject_msg = std::string("objective function set_up: ") + e.what();
-      return Result::pass();
-    }
   for (const auto& op : l.ops)
     {
       if (excluded_op(x, op.first))
@@ -1162,6 +1191,48 @@ run_sequence(const Ctx& x, RefCache& rc, const OpList& l, const int mem_fill, co
   return Result::pass();
 }
 
+// a fresh object: construct in pre-filled memory, configure, set_up.  A configuration that STIR rejects with error() /
+// Succeeded::no sets 'rejected' (the exception is caught around configuration + set_up only)
+void
+make_fresh(Holder& h, const Ctx& x, const int mem_fill, const int sens_mode, const std::string& dir, const bool tofsens, bool& rejected,
+           std::string& reject_msg)
+{
+  h.make(mem_fill);
+  Obj& o = *h.o;
+  rejected = false;
+  shared_ptr<Target> target(x.proto->get_empty_copy());
+  target->set_exam_info(*pet_exam_info());
+  try
+    {
+      configure(o, x, x.N, sens_mode, dir, tofsens);
+      if (o.set_up(target) != Succeeded::yes)
+        {
+          rejected = true;
+          reject_msg = "objective function set_up returned no";
+        }
+    }
+  catch (const stir_verif::AssertionFailure&)
+    {
+      throw;
+    }
+  catch (const std::exception& e)
+    {
+      rejected = true;
+      reject_msg = std::string("objective function set_up: ") + e.what();
+    }
+}
+
+Result
+run_sequence(const Ctx& x, RefCache& rc, const OpList& l, const int mem_fill, const int sens_mode, const std::string& dir, Results& res,
+             const std::string& who, bool& rejected, std::string& reject_msg, const int tofsens = -1)
+{
+  Holder h;
+  make_fresh(h, x, mem_fill, sens_mode, dir, tofsens < 0 ? x.use_tofsens : tofsens != 0, rejected, reject_msg);
+  if (rejected)
+    return Result::pass();
+  return run_requests(*h.o, x, rc, l, res, who);
+}
+
 Result
 compare_results(const Results& A, const Results& B, const std::string& what)
 {
@@ -1175,6 +1246,341 @@ compare_results(const Results& A, const Results& B, const std::string& what)
       stats().maxi(cat("rel diff ", what), d / std::max(sc, 1e-30));
       VF_CHECK(d <= TOL_SAME * sc + 1e-30, what, ": ", kind_name[kv.first.first], " subset ", kv.first.second, " differs by ", d, " (magnitude ", sc, ")");
     }
+  return Result::pass();
+}
+
+// ------------------------------------------------------------------------------------------------
+// object histories
+
+// the configuration of a stage = the Case's own (final) configuration with the stage's overrides
+json
+stage_cfg(const json& c, const json& st)
+{
+  json s = c;
+  s.erase("hist");
+  if (st.contains("set") && st["set"].is_object())
+    for (auto it = st["set"].begin(); it != st["set"].end(); ++it)
+      s[it.key()] = it.value();
+  s["ops"] = st.contains("ops") ? st["ops"] : json::array();
+  return s;
+}
+
+// redundant calls ("touch" bits of a stage): the setter is called although the value did not change
+enum Touch
+{
+  T_DATA = 1,          // set_proj_data_sptr with an equal copy of the data
+  T_PAIR = 2,          // set_projector_pair_sptr with a new pair with the same switches
+  T_ADD = 4,           // set_additive_proj_data_sptr
+  T_NORM = 8,          // set_normalisation_sptr with a new object over the same factors
+  T_ZERO = 16,         // set_zero_seg0_end_planes
+  T_MS = 32,           // set_max_segment_num_to_process
+  T_USS = 64,          // set_use_subset_sensitivities
+  T_N = 128,           // set_num_subsets
+  T_PRIOR = 256,       // set_prior_sptr with a new prior object
+  T_SENS = 512,        // set_recompute_sensitivity(true) again / clear the file names when going back to computed ones
+  T_PRIOR_FACTOR = 1024, // a changed penalisation factor goes through set_penalisation_factor of the existing prior object
+  T_INPUT = 2048         // the data are handed over through set_input_data (the base-class name of set_proj_data_sptr)
+};
+
+const char* const SIG_H1 = "C05:history:max_segment_num_to_process=-1:data-segment-range-changed";
+const char* const SIG_H2 = "C05:setter:set_subsensitivity_filenames:empty-string";
+void
+count_excluded(const char* sig)
+{
+  stats().excluded_known++;
+  stats().count(std::string("excluded:") + sig);
+}
+
+// Known findings of the history search (kept out by construction, back in with VERIF_NO_EXCLUDE=1; probes under known/C05/):
+// H1  set_up_before_sensitivity overwrites the member max_segment_num_to_process == -1 ("convention: if -1, use
+//     get_max_segment_num()") with the segment range of the data of the FIRST set_up.  After set_proj_data_sptr with data of
+//     another segment range a later set_up either error()s "max_segment_num_to_process (n) is too large" (smaller range)
+//     or silently leaves the additional segments out of value/gradient/sensitivity/Hessian (larger range), although the
+//     user never restricted the segments.  Avoided by stating the -1 again through set_max_segment_num_to_process.
+// H2  set_subsensitivity_filenames("") -- documented "set to a zero-length string to avoid reading/writing a file" --
+//     error()s: boost::format("") % 0 throws too_many_args.  Avoided by not making that call.
+bool
+h1_restate_ms(const Ctx& from, const Ctx& to)
+{
+  return to.pass_ms == -1 && from.pass_ms == -1 && from.pdi->get_max_segment_num() != to.pdi->get_max_segment_num();
+}
+
+// Calls the setters that turn the settings of stage 'from' into those of stage 'to' on the SAME object.
+// All of them are public setters of PoissonLogLikelihoodWithLinearModelForMeanAndProjData / ...ForMean /
+// GeneralisedObjectiveFunction, whose documentation says "After using any of these, you have to call set_up()"
+// (set_prior_sptr: "You should call set_up() again after using this function"): the caller calls set_up next.
+void
+apply_setters(Obj& o, const Ctx& from, const Ctx& to, const int touch, const int sens_from, const int sens_to, const std::string& prefix_to,
+              std::string& trace)
+{
+  const bool geom_changed = from.cfg["pdi"] != to.cfg["pdi"];
+  auto note = [&](const std::string& what) {
+    trace += " " + what + ";";
+    stats().count(cat("history setter: ", what.substr(0, what.find('('))));
+  };
+  if (geom_changed || from.y != to.y || (touch & T_DATA))
+    {
+      if (touch & T_INPUT)
+        o.set_input_data(to.y_pd);
+      else
+        o.set_proj_data_sptr(to.y_pd);
+      if (geom_changed)
+        stats().count(cat("history: data of another geometry", from.tof != to.tof ? " (TOF <-> non-TOF)" : ""));
+      else if (from.y != to.y)
+        stats().count("history: other data of the same geometry");
+      note(geom_changed ? "set_proj_data_sptr(other geometry)" : from.y != to.y ? "set_proj_data_sptr(other data)" : "set_proj_data_sptr(equal data)");
+    }
+  if (from.cfg["matrix"] != to.cfg["matrix"] || (touch & T_PAIR))
+    {
+      o.set_projector_pair_sptr(shared_ptr<ProjectorByBinPair>(new ProjectorByBinPairUsingProjMatrixByBin(matrix_under_test(to))));
+      note(from.cfg["matrix"] != to.cfg["matrix"] ? "set_projector_pair_sptr(other matrix)" : "set_projector_pair_sptr(same switches)");
+    }
+  if (geom_changed || from.additive != to.additive || (to.additive && from.a != to.a) || (touch & T_ADD))
+    {
+      // "none" = a null pointer, the constructor's default (set_defaults: additive_proj_data_sptr.reset())
+      o.set_additive_proj_data_sptr(to.additive ? shared_ptr<ExamData>(to.a_pd) : shared_ptr<ExamData>());
+      note(to.additive ? "set_additive_proj_data_sptr(data)" : "set_additive_proj_data_sptr(none)");
+    }
+  if (geom_changed || from.norm_kind != to.norm_kind || from.norm_is_tof != to.norm_is_tof
+      || (to.norm_kind > 0 && from.cfg["norm_seed"] != to.cfg["norm_seed"]) || (touch & T_NORM))
+    {
+      // "none" = a TrivialBinNormalisation, the constructor's default (set_defaults)
+      o.set_normalisation_sptr(to.norm_kind > 0 ? make_norm(to) : shared_ptr<BinNormalisation>(new TrivialBinNormalisation));
+      note(cat("set_normalisation_sptr(", to.norm_kind == 0 ? "trivial" : to.norm_kind == 1 ? "from proj data" : "chained", ")"));
+    }
+  if (from.zero_ends != to.zero_ends || (touch & T_ZERO))
+    {
+      o.set_zero_seg0_end_planes(to.zero_ends);
+      note(cat("set_zero_seg0_end_planes(", to.zero_ends, ")"));
+    }
+  if (from.pass_ms != to.pass_ms || (touch & T_MS) || false /* H1 repaired in /repo: the -1 is not stated again */)
+    {
+      if (from.pass_ms == to.pass_ms && !(touch & T_MS))
+        count_excluded(SIG_H1); // the -1 is re-stated after a change of the data's segment range
+      o.set_max_segment_num_to_process(to.pass_ms);
+      note(cat("set_max_segment_num_to_process(", to.pass_ms, ")"));
+    }
+  if (from.use_subset_sens != to.use_subset_sens || (touch & T_USS))
+    {
+      o.set_use_subset_sensitivities(to.use_subset_sens);
+      note(cat("set_use_subset_sensitivities(", to.use_subset_sens, ")"));
+    }
+  if (from.N != to.N || (touch & T_N))
+    {
+      o.set_num_subsets(to.N);
+      note(cat("set_num_subsets(", to.N, ")"));
+    }
+  if (from.prior_kind != to.prior_kind || (to.prior_kind == 1 && from.beta != to.beta) || (touch & T_PRIOR))
+    {
+      if (from.prior_kind == 1 && to.prior_kind == 1 && (touch & T_PRIOR_FACTOR))
+        { // GeneralisedPrior.inl: "Currently we allow the penalisation factor to be set after calling set_up()"
+          o.get_prior_sptr()->set_penalisation_factor(float(to.beta));
+          note(cat("prior->set_penalisation_factor(", to.beta, ")"));
+        }
+      else
+        {
+          o.set_prior_sptr(to.prior_kind == 1 ? shared_ptr<GeneralisedPrior<Target>>(new QuadraticPrior<float>(false, float(to.beta)))
+                                              : shared_ptr<GeneralisedPrior<Target>>());
+          note(to.prior_kind == 1 ? cat("set_prior_sptr(quadratic ", to.beta, ")") : std::string("set_prior_sptr(none)"));
+        }
+    }
+  if (sens_to == 1)
+    { // read the (subset) sensitivities this stage's writer object has put into files
+      if (to.use_subset_sens)
+        o.set_subsensitivity_filenames(prefix_to + "subsens_%d.hv");
+      else
+        o.set_sensitivity_filename(prefix_to + "sens.hv");
+      o.set_recompute_sensitivity(false);
+      note("sensitivity file name(s) + set_recompute_sensitivity(false)");
+    }
+  else if (sens_from == 1)
+    { // back to computed sensitivities; the file names may stay (the files are then re-written) or be cleared
+      o.set_recompute_sensitivity(true);
+      if (touch & T_SENS)
+        {
+          // "set to a zero-length string to avoid reading/writing a file" (PoissonLogLikelihoodWithLinearModelForMean.h)
+          o.set_sensitivity_filename("");
+          // set_subsensitivity_filenames("") is documented in the same way but error()s (boost::format("") % 0 throws
+          // too_many_args).  That is a defect of a setter, not of any quantity C05 speaks about, so the call is simply not
+          // part of the generated histories (counted; not a finding of this property).
+          stats().count("not generated: set_subsensitivity_filenames(\"\") (outside the property)");
+        }
+      note((touch & T_SENS) ? "set_recompute_sensitivity(true) + file names cleared" : "set_recompute_sensitivity(true)");
+    }
+  else if (touch & T_SENS)
+    {
+      o.set_recompute_sensitivity(true);
+      note("set_recompute_sensitivity(true) again");
+    }
+}
+
+Result
+run_history(const json& c, const Ctx& xf, const std::string& dir)
+{
+  const json& hist = c["hist"];
+  const int n = int(hist.size());
+  const int mem_fill = c["mem_fill"];
+  std::vector<std::unique_ptr<Ctx>> ctxs;
+  Holder h;
+  h.make(mem_fill);
+  Obj& o = *h.o;
+  bool sticky = false; // the object's own "use time-of-flight sensitivities" was switched on by an earlier set_up
+  const Ctx* prev = nullptr;
+  int prev_sens = 0;
+  std::string trace = "history:";
+  int n_setups = 0;
+  for (int k = 0; k <= n; ++k)
+    {
+      const bool final = k == n;
+      json scfg;
+      if (final)
+        {
+          scfg = c;
+          scfg.erase("hist");
+        }
+      else
+        scfg = stage_cfg(c, hist[std::size_t(k)]);
+      const int sens_k = scfg["sens_source"];
+      const int touch = final ? c.value("final_touch", 0) : hist[std::size_t(k)].value("touch", 0);
+      const Ctx* X = &xf;
+      const bool use_sticky = sticky && sens_k == 0; // sensitivities read from file were computed by a fresh object
+      if (!final || (use_sticky && xf.tof && !xf.tofsens_eff))
+        {
+          ctxs.emplace_back(new Ctx);
+          try
+            {
+              build_ctx(scfg, *ctxs.back(), prev ? prev : &xf, use_sticky);
+            }
+          catch (const stir_verif::AssertionFailure&)
+            {
+              throw;
+            }
+          catch (const std::exception& e)
+            {
+              return Result::reject(cat("construction of stage ", k, " rejected: ", e.what()));
+            }
+          X = ctxs.back().get();
+        }
+      if (use_sticky && X->tof && !X->use_tofsens && !X->norm_is_tof)
+        stats().count("history: sensitivities of a later set_up are TOF sensitivities because an earlier set_up saw TOF-only norm data");
+      VF_CHECK(X->unowned.empty(), "stage ", k, ": find_basic_vs_nums_in_subset + related view/segments leave ", X->unowned, " out of every one of the ", X->N,
+               " subsets although |segment| <= max_segment_num_to_process=", X->ms);
+      const std::string prefix = cat(dir, "/s", k, "_");
+      const std::string who = cat("stage ", k, " of ", n, final ? " (final settings)" : "");
+      RefCache rc;
+      bool rejected = false;
+      std::string rmsg;
+      if (sens_k == 1)
+        { // a fresh writer object with this stage's settings computes the sensitivities and writes them to file
+          Results W;
+          OpList none;
+          Result r = run_sequence(*X, rc, none, 0, 1, prefix, W, "writer", rejected, rmsg);
+          if (rejected)
+            return Result::reject(cat(who, ": writer: ", rmsg));
+          if (r.failed())
+            return r;
+        }
+      trace += cat(" [", k, "]");
+      shared_ptr<Target> target(X->proto->get_empty_copy());
+      target->set_exam_info(*pet_exam_info());
+      std::string setup_error;
+      if (k > 0)
+        { // none of the setters is documented to fail for the arguments used here (the file name patterns are valid
+          // boost::format patterns or the documented empty string)
+          try
+            {
+              apply_setters(o, *prev, *X, touch, prev_sens, sens_k, prefix, trace);
+            }
+          catch (const stir_verif::AssertionFailure&)
+            {
+              throw;
+            }
+          catch (const std::exception& e)
+            {
+              return Result::fail(cat(who, ": a setter used as documented throws: ", e.what(), " | ", trace, " (the call that throws is the last one listed or the one after it)"));
+            }
+        }
+      try
+        {
+          if (k == 0)
+            configure(o, *X, X->N, sens_k == 1 ? 2 : 0, prefix, X->use_tofsens);
+          if (k > 0 && !prev->proto->has_same_characteristics(*X->proto))
+            {
+              trace += " set_up(other target geometry);";
+              stats().count("history: set_up with another target geometry");
+            }
+          else
+            trace += " set_up;";
+          if (o.set_up(target) != Succeeded::yes)
+            setup_error = "set_up returned Succeeded::no";
+        }
+      catch (const stir_verif::AssertionFailure&)
+        {
+          throw;
+        }
+      catch (const std::exception& e)
+        {
+          setup_error = std::string("error: ") + e.what();
+        }
+      if (!setup_error.empty())
+        {
+          if (k == 0)
+            return Result::reject(cat("objective function set_up: ", setup_error));
+          // legal use: a combination of settings the class rejects is rejected by a fresh object as well
+          Holder t;
+          make_fresh(t, *X, 0, sens_k == 1 ? 2 : 0, prefix, X->use_tofsens, rejected, rmsg);
+          if (rejected)
+            return Result::reject(cat(who, ": ", setup_error));
+          return Result::fail(cat(who, ": setters + set_up fail on the object with a history (", setup_error,
+                                  ") although a freshly constructed object accepts the same settings | ", trace));
+        }
+      ++n_setups;
+      if (k > 0 && sens_k == 0 && X->use_subset_sens)
+        {
+          if (!prev->use_subset_sens && std::min(prev->N, X->N) >= 3)
+            stats().count("history pattern: subset sensitivities switched on between two set_ups, >= 3 subsets before and after");
+          if (prev->use_subset_sens && std::min(prev->N, X->N) >= 2)
+            stats().count("history pattern: subset sensitivities recomputed by a later set_up, >= 2 subsets before and after");
+        }
+      // set_up_before_sensitivity: TOF data + TOF-only norm + recompute => the object's use_tofsens member is switched on
+      if (sens_k == 0 && X->tof && X->norm_is_tof && X->pdi->get_num_tof_poss() > 1)
+        sticky = true;
+      const OpList l = decode_ops(scfg["ops"], *X);
+      Results R;
+      Result r = Result::pass();
+      try
+        {
+          r = run_requests(o, *X, rc, l, R, who);
+        }
+      catch (const stir_verif::AssertionFailure& e)
+        {
+          return Result::fail(cat("ASSERT: ", who, ": ", e.what(), " | ", trace));
+        }
+      catch (const std::exception& e)
+        {
+          return Result::fail(cat("EXCEPTION: ", who, ": a request throws: ", e.what(), " | ", trace));
+        }
+      if (r.failed())
+        return Result::fail(cat(r.msg, " | ", trace));
+      if (final)
+        { // the freshly constructed twin: same settings, same requests, other memory pattern
+          Results T;
+          const bool twin_tofsens = X->use_tofsens || (sticky && X->tof);
+          r = run_sequence(*X, rc, l, 1 - mem_fill, sens_k == 1 ? 2 : 0, prefix, T, "freshly constructed twin", rejected, rmsg, twin_tofsens ? 1 : 0);
+          if (rejected)
+            return Result::reject(cat("freshly constructed twin: ", rmsg));
+          if (r.failed())
+            return r;
+          r = compare_results(R, T, "object with history vs freshly constructed twin");
+          if (r.failed())
+            return Result::fail(cat(r.msg, " | ", trace));
+        }
+      prev = X;
+      prev_sens = sens_k;
+    }
+  stats().cls("object history");
+  stats().cls(cat("object history: ", n_setups, " set_ups on one object"));
+  stats().count("history: set_ups on objects with a history", n_setups - 1);
   return Result::pass();
 }
 
@@ -1211,16 +1617,29 @@ check(const json& c)
   const int sens_source = c["sens_source"]; // 0: computed in set_up, 1: read from files (recompute_sensitivity=false)
   const int mem_fill = c["mem_fill"];
   RefCache rc;
-  std::string dir;
-  if (sens_source == 1)
+  const bool with_history = c.contains("hist") && c["hist"].is_array() && !c["hist"].empty() && !c.value("all_orders", false);
+  bool need_dir = sens_source == 1;
+  if (with_history)
+    for (const json& st : c["hist"])
+      if (st.contains("set") && st["set"].value("sens_source", 0) == 1)
+        need_dir = true;
+  std::string dir, pre;
+  if (need_dir)
     {
       dir = tmp_dir();
       guard.d = dir;
+      pre = dir + "/";
     }
   bool rejected = false;
   std::string rmsg;
 
-  if (c.value("all_orders", false))
+  if (with_history)
+    {
+      Result r = run_history(c, x, dir);
+      if (r.kind != Result::PASS)
+        return r;
+    }
+  else if (c.value("all_orders", false))
     { // every order of first use of the six kinds of request, a fresh object per order
       std::vector<int> perm = { 0, 1, 2, 3, 4, 5 };
       Results first;
@@ -1238,7 +1657,7 @@ check(const json& c)
           for (int k : perm)
             l.ops.push_back(std::make_pair(PERM6[k], PERM6[k] == VALUE_S ? int(c["order_subset"].get<int>() % x.N) : int((n + k) % x.N)));
           Results res;
-          Result r = run_sequence(x, rc, l, int(n % 2), 0, dir, res, cat("order #", n), rejected, rmsg);
+          Result r = run_sequence(x, rc, l, int(n % 2), 0, pre, res, cat("order #", n), rejected, rmsg);
           if (rejected)
             return Result::reject(rmsg);
           if (r.failed())
@@ -1264,13 +1683,13 @@ check(const json& c)
         { // a first object computes the sensitivities and writes them to file; the object under test reads them
           Results W;
           OpList none;
-          Result r = run_sequence(x, rc, none, 0, 1, dir, W, "writer", rejected, rmsg);
+          Result r = run_sequence(x, rc, none, 0, 1, pre, W, "writer", rejected, rmsg);
           if (rejected)
             return Result::reject(rmsg);
           if (r.failed())
             return r;
         }
-      Result r = run_sequence(x, rc, l, mem_fill, sens_source == 1 ? 2 : 0, dir, A, "object A", rejected, rmsg);
+      Result r = run_sequence(x, rc, l, mem_fill, sens_source == 1 ? 2 : 0, pre, A, "object A", rejected, rmsg);
       if (rejected)
         return Result::reject(rmsg);
       if (r.failed())
@@ -1279,7 +1698,7 @@ check(const json& c)
         { // the same requests in reverse order on a fresh object (other memory pattern): same numbers
           OpList rev = l;
           std::reverse(rev.ops.begin(), rev.ops.end());
-          r = run_sequence(x, rc, rev, sens_source == 1 ? mem_fill : 1 - mem_fill, sens_source == 1 ? 2 : 0, dir, B, "object B (reverse order)", rejected, rmsg);
+          r = run_sequence(x, rc, rev, sens_source == 1 ? mem_fill : 1 - mem_fill, sens_source == 1 ? 2 : 0, pre, B, "object B (reverse order)", rejected, rmsg);
           if (rejected)
             return Result::reject(rmsg);
           if (r.failed())
@@ -1304,7 +1723,7 @@ check(const json& c)
           if (!excluded_op(x, HESS_S))
             l1.ops.push_back(std::make_pair(int(HESS_S), 0));
           Results R1;
-          r = run_sequence(x1, rc1, l1, 0, 0, dir, R1, "one-subset object", rejected, rmsg);
+          r = run_sequence(x1, rc1, l1, 0, 0, pre, R1, "one-subset object", rejected, rmsg);
           if (rejected)
             return Result::reject(rmsg);
           if (r.failed())
@@ -1314,7 +1733,7 @@ check(const json& c)
             for (int S = 0; S < x.N; ++S)
               lall.ops.push_back(std::make_pair(op.first, S));
           Results RN;
-          r = run_sequence(x, rc, lall, 0, 0, dir, RN, "N-subset object (all subsets)", rejected, rmsg);
+          r = run_sequence(x, rc, lall, 0, 0, pre, RN, "N-subset object (all subsets)", rejected, rmsg);
           if (rejected)
             return Result::reject(rmsg);
           if (r.failed())
@@ -1381,6 +1800,63 @@ count_bins(const ProjDataInfo& p)
 }
 
 json
+gen_matrix(Src& s)
+{
+  json m;
+  m["num_tangential_LORs"] = int(s.pick(std::vector<int>{ 1, 1, 1, 2, 3 }));
+  m["restrict_to_cylindrical_FOV"] = s.chance(3, 4);
+  const bool all_sym = s.chance(1, 2);
+  m["s90"] = all_sym || s.coin();
+  m["s180"] = all_sym || s.coin();
+  m["swap_seg"] = all_sym || s.coin();
+  m["swap_s"] = all_sym || s.coin();
+  m["shift_z"] = all_sym || s.coin();
+  m["cache"] = s.chance(3, 4);
+  m["only_basic"] = s.coin();
+  return m;
+}
+
+// every legal number of subsets of a configuration. With use_subset_sensitivities off, set_up demands balanced subsets
+// (PoissonLogLikelihoodWithLinearModelForMean.cxx: "Number of subsets %d is such that subsets will be very unbalanced")
+std::vector<int>
+legal_subsets(const json& c, const shared_ptr<ProjDataInfo>& pdi)
+{
+  const json& m = c["matrix"];
+  const int views = pdi->get_num_views();
+  std::vector<int> legal;
+  if (c["use_subset_sens"].get<bool>())
+    for (int N = 1; N <= views; ++N)
+      legal.push_back(N);
+  else
+    {
+      try
+        {
+          shared_ptr<VoxelsOnCartesianGrid<float>> im = vg::make_image(c["image"], *pdi, 7);
+          shared_ptr<ProjectorByBinPair> pair(new ProjectorByBinPairUsingProjMatrixByBin(
+              vp::make_matrix(vp::MatrixOpts(), m["s90"], m["s180"], m["swap_seg"], m["swap_s"], m["shift_z"], false, false)));
+          pair->set_up(pdi, im);
+          Obj o;
+          o.set_proj_data_sptr(shared_ptr<ProjData>(new ProjDataInMemory(pet_exam_info(), pdi, false)));
+          o.set_projector_pair_sptr(pair);
+          const int ms = c["max_seg"].get<int>() < 0 ? pdi->get_max_segment_num() : std::min(c["max_seg"].get<int>(), pdi->get_max_segment_num());
+          o.set_max_segment_num_to_process(ms);
+          for (int N = 1; N <= views; ++N)
+            {
+              o.set_num_subsets(N);
+              if (o.subsets_are_approximately_balanced())
+                legal.push_back(N);
+            }
+        }
+      catch (const std::exception&)
+        {
+        }
+      if (legal.empty())
+        legal.push_back(1);
+    }
+  return legal;
+}
+
+json
 gen_config(Src& s, int size, int force_tof /* -1 free, 0 no, 1 yes */)
 {
   json c;
@@ -1438,17 +1914,7 @@ gen_config(Src& s, int size, int force_tof /* -1 free, 0 no, 1 yes */)
   vg::ImageOpts io;
   io.max_xy = size < 40 ? 7 : 11;
   c["image"] = vg::gen_image(s, io);
-  json m;
-  m["num_tangential_LORs"] = int(s.pick(std::vector<int>{ 1, 1, 1, 2, 3 }));
-  m["restrict_to_cylindrical_FOV"] = s.chance(3, 4);
-  const bool all_sym = s.chance(1, 2);
-  m["s90"] = all_sym || s.coin();
-  m["s180"] = all_sym || s.coin();
-  m["swap_seg"] = all_sym || s.coin();
-  m["swap_s"] = all_sym || s.coin();
-  m["shift_z"] = all_sym || s.coin();
-  m["cache"] = s.chance(3, 4);
-  m["only_basic"] = s.coin();
+  json m = gen_matrix(s);
   c["matrix"] = m;
 
   const bool tof = pdi->is_tof_data();
@@ -1479,39 +1945,8 @@ gen_config(Src& s, int size, int force_tof /* -1 free, 0 no, 1 yes */)
   c["second_object"] = s.chance(1, 2);
   c["sum_check"] = s.chance(1, 5);
 
-  // ---- number of subsets: every legal one. With use_subset_sensitivities off, set_up demands balanced subsets
-  // (PoissonLogLikelihoodWithLinearModelForMean.cxx: "Number of subsets %d is such that subsets will be very unbalanced")
-  const int views = pdi->get_num_views();
-  std::vector<int> legal;
-  if (c["use_subset_sens"].get<bool>())
-    for (int N = 1; N <= views; ++N)
-      legal.push_back(N);
-  else
-    {
-      try
-        {
-          shared_ptr<VoxelsOnCartesianGrid<float>> im = vg::make_image(c["image"], *pdi, 7);
-          shared_ptr<ProjectorByBinPair> pair(new ProjectorByBinPairUsingProjMatrixByBin(
-              vp::make_matrix(vp::MatrixOpts(), m["s90"], m["s180"], m["swap_seg"], m["swap_s"], m["shift_z"], false, false)));
-          pair->set_up(pdi, im);
-          Obj o;
-          o.set_proj_data_sptr(shared_ptr<ProjData>(new ProjDataInMemory(pet_exam_info(), pdi, false)));
-          o.set_projector_pair_sptr(pair);
-          const int ms = c["max_seg"].get<int>() < 0 ? pdi->get_max_segment_num() : std::min(c["max_seg"].get<int>(), pdi->get_max_segment_num());
-          o.set_max_segment_num_to_process(ms);
-          for (int N = 1; N <= views; ++N)
-            {
-              o.set_num_subsets(N);
-              if (o.subsets_are_approximately_balanced())
-                legal.push_back(N);
-            }
-        }
-      catch (const std::exception&)
-        {
-        }
-      if (legal.empty())
-        legal.push_back(1);
-    }
+  // ---- number of subsets: every legal one
+  const std::vector<int> legal = legal_subsets(c, pdi);
   // bias: one subset 1/5, otherwise uniform over the legal values
   c["num_subsets"] = (s.chance(1, 5) || legal.size() == 1) ? 1 : legal[std::size_t(s.range(1, long(legal.size()) - 1))];
   return c;
@@ -1562,7 +1997,12 @@ f5_config(const json& c)
     }
 }
 
-// signature of the known-finding class a case belongs to ("" = none; always "" when VERIF_NO_EXCLUDE is set)
+// signature of the known-finding class a case belongs to ("" = none; always "" when VERIF_NO_EXCLUDE is set).
+// The two findings of the history search are not whole-case classes: their signatures are SIG_H1
+// ("C05:history:max_segment_num_to_process=-1:data-segment-range-changed") and SIG_H2
+// ("C05:setter:set_subsensitivity_filenames:empty-string"); exactly the offending call sequence is avoided inside
+// apply_setters() (H1: the -1 is stated again, H2: the call is left out), counted under excluded_known, and everything
+// else of such a case is still checked.
 std::string
 known_signature(const json& c)
 {
@@ -1583,6 +2023,8 @@ forced()
   }();
   return f;
 }
+
+void gen_history(Src& s, json& c, const int size);
 
 json
 gen(Src& s, int size)
@@ -1620,10 +2062,309 @@ gen(Src& s, int size)
         }
     }
   c["ops"] = ops;
+  // "convention: if -1, use get_max_segment_num()": half of the cases hand the -1 itself to the setter
+  c["ms_literal"] = s.coin();
+  // object histories: a little less than half of the generated cases (the others are the fresh-object cases)
+  const int hist_pct = forced().value("hist_pct", 45);
+  if (int(s.range(0, 99)) < hist_pct)
+    {
+      gen_history(s, c, size);
+      c["second_object"] = false; // the history cases always run a freshly constructed twin instead
+      c["sum_check"] = false;
+    }
   for (auto it = forced().begin(); it != forced().end(); ++it)
-    if (it.key() != "force_tof")
+    if (it.key() != "force_tof" && it.key() != "hist_pct")
       c[it.key()] = it.value();
   return c;
+}
+
+// ------------------------------------------------------------------------------------------------
+// object histories: the earlier stages of the object are generated BACKWARDS from the Case's own (final) settings, a
+// few changed settings per set_up, so that consecutive stages differ in the setters a user would call in between
+enum HKind
+{
+  HK_N,
+  HK_USS,
+  HK_ZERO,
+  HK_MS,
+  HK_ADD,
+  HK_NORM,
+  HK_DATA,
+  HK_GEOM,
+  HK_PAIR,
+  HK_PRIOR,
+  HK_SENS,
+  HK_TARGET
+};
+
+json
+gen_stage_ops(Src& s, int max_n)
+{
+  json ops = json::array();
+  const int n = int(s.range(0, max_n));
+  for (int i = 0; i < n; ++i)
+    ops.push_back(json::array({ int(s.range(0, NUM_KINDS - 1)), int(s.range(0, 63)) }));
+  return ops;
+}
+
+int
+gen_touch(Src& s)
+{
+  int t = 0;
+  for (int b = 0; b < 12; ++b)
+    if (s.range(0, 5) == 5) // (shrinks towards "no redundant call")
+      t |= 1 << b;
+  return t;
+}
+
+// the settings of the stage before 'cur'
+json
+gen_previous_stage(Src& s, const json& cur, const shared_ptr<Scanner>& sc, const int size)
+{
+  json prev = cur;
+  const long max_bins = size < 40 ? 2500 : 5000;
+  static const std::vector<int> kinds = { HK_N,   HK_N,    HK_USS,  HK_USS,  HK_USS,   HK_ZERO, HK_MS,   HK_ADD,
+                                          HK_NORM, HK_DATA, HK_GEOM, HK_PAIR, HK_PRIOR, HK_SENS, HK_SENS, HK_TARGET };
+  const int nk = int(s.pick(std::vector<int>{ 0, 1, 1, 1, 2, 2, 3 })); // 0: set_up is simply called again
+  bool new_N = false;
+  for (int j = 0; j < nk; ++j)
+    switch (s.pick(kinds))
+      {
+      case HK_N:
+        new_N = true;
+        break;
+      case HK_USS:
+        prev["use_subset_sens"] = !prev["use_subset_sens"].get<bool>();
+        break;
+      case HK_ZERO:
+        prev["zero_ends"] = !prev["zero_ends"].get<bool>();
+        break;
+      case HK_MS:
+        prev["max_seg"] = s.coin() ? -1 : int(s.range(0, 2));
+        prev["ms_literal"] = s.coin();
+        break;
+      case HK_ADD:
+        if (prev["additive"].get<bool>() && s.coin())
+          prev["additive"] = false;
+        else
+          {
+            prev["additive"] = true;
+            prev["add_seed"] = s.seed64();
+            prev["add_scale"] = s.pick(std::vector<double>{ 0.1, 1., 1., 10. });
+          }
+        break;
+      case HK_NORM:
+        prev["norm"] = int(s.pick(std::vector<int>{ 0, 1, 1, 2 }));
+        prev["norm_seed"] = s.seed64();
+        break;
+      case HK_DATA:
+        prev["data_seed"] = s.seed64();
+        break;
+      case HK_GEOM:
+        { // other projection data geometry on the same scanner, same axial structure (span, max ring difference)
+          json p = prev["pdi"];
+          const int ndet = sc->get_num_detectors_per_ring();
+          switch (int(s.range(0, 3)))
+            {
+            case 0:
+              p["views"] = ndet / 2 / s.pick(vg::divisors(ndet / 2));
+              break;
+            case 1:
+              p["tang"] = int(s.range(std::min(2, sc->get_max_num_non_arccorrected_bins()), sc->get_max_num_non_arccorrected_bins()));
+              break;
+            case 2:
+              if (p["trim"].empty())
+                {
+                  p["trim"] = json::object();
+                  p["trim"]["max_seg"] = int(s.range(0, 2));
+                  p["trim"]["tang_cut"] = int(s.range(0, 2));
+                }
+              else
+                p["trim"] = json::object();
+              break;
+            default:
+              if (sc->is_tof_ready())
+                {
+                  std::vector<int> ok;
+                  const int T = sc->get_max_num_timing_poss();
+                  for (int m = 1; m <= T; ++m)
+                    if (T % m == 0 && (T / m) % 2 == 1 && T / m <= 5)
+                      ok.push_back(m);
+                  ok.push_back(0);
+                  p["tof_mash"] = s.pick(ok);
+                }
+              break;
+            }
+          try
+            {
+              shared_ptr<ProjDataInfo> q = vg::make_pdi(sc, p);
+              if (count_bins(*q) <= max_bins)
+                prev["pdi"] = p;
+            }
+          catch (const std::exception&)
+            {
+            }
+        }
+        break;
+      case HK_PAIR:
+        if (s.chance(2, 3))
+          prev["matrix"] = gen_matrix(s);
+        else
+          prev["touch_hint"] = int(T_PAIR); // a new pair object with the same switches
+        break;
+      case HK_PRIOR:
+        if (prev["prior"].get<int>() == 1 && s.coin())
+          prev["prior"] = 0;
+        else
+          {
+            prev["prior"] = 1;
+            prev["beta"] = s.pick(std::vector<double>{ 0.1, 1., 10. });
+          }
+        break;
+      case HK_SENS:
+        prev["sens_source"] = 1 - prev["sens_source"].get<int>();
+        break;
+      case HK_TARGET:
+        {
+          vg::ImageOpts io;
+          io.max_xy = size < 40 ? 7 : 11;
+          prev["image"] = vg::gen_image(s, io);
+        }
+        break;
+      }
+  // ---- keep the stage legal
+  shared_ptr<ProjDataInfo> pdi = vg::make_pdi(sc, prev["pdi"]);
+  const bool tof = pdi->is_tof_data();
+  if (!tof)
+    prev["norm_tof"] = false;
+  else if (prev["pdi"] != cur["pdi"])
+    prev["norm_tof"] = s.chance(1, 3);
+  // the rule of gen_config for fully mashed TOF data ("use time-of-flight sensitivities" is fixed at construction)
+  if (tof && pdi->get_num_tof_poss() == 1 && prev["norm"].get<int>() > 0 && prev["norm_tof"].get<bool>() && !prev["use_tofsens"].get<bool>())
+    prev["norm_tof"] = false;
+  const std::vector<int> legal = legal_subsets(prev, pdi);
+  const int N = prev["num_subsets"];
+  if (new_N || std::find(legal.begin(), legal.end(), N) == legal.end())
+    {
+      std::vector<int> big;
+      for (int L : legal)
+        if (L >= 3)
+          big.push_back(L);
+      if (!big.empty() && s.chance(2, 3))
+        prev["num_subsets"] = s.pick(big);
+      else
+        prev["num_subsets"] = s.pick(legal);
+    }
+  return prev;
+}
+
+void
+gen_history(Src& s, json& c, const int size)
+{
+  shared_ptr<Scanner> sc = vg::make_scanner(c["scanner"]);
+  const int nstages = int(s.pick(std::vector<int>{ 1, 1, 1, 2, 2, 3 }));
+  json base = c;
+  base.erase("ops");
+  std::vector<json> stages; // backwards in time
+  std::vector<int> hints;
+  json cur = base;
+  for (int i = 0; i < nstages; ++i)
+    {
+      json prev = gen_previous_stage(s, cur, sc, size);
+      // the hint belongs to the transition prev -> cur, i.e. to the stage that is entered
+      hints.push_back(prev.value("touch_hint", 0));
+      prev.erase("touch_hint");
+      stages.push_back(prev);
+      cur = prev;
+    }
+  json hist = json::array();
+  int touch_next = 0;
+  for (int i = nstages - 1; i >= 0; --i)
+    {
+      json st;
+      json set = json::object();
+      for (auto it = stages[std::size_t(i)].begin(); it != stages[std::size_t(i)].end(); ++it)
+        if (!base.contains(it.key()) || base[it.key()] != it.value())
+          set[it.key()] = it.value();
+      st["set"] = set;
+      st["ops"] = gen_stage_ops(s, 3);
+      st["touch"] = gen_touch(s) | touch_next;
+      touch_next = hints[std::size_t(i)];
+      hist.push_back(st);
+    }
+  c["hist"] = hist;
+  c["final_touch"] = gen_touch(s) | touch_next;
+}
+
+// corner histories that every run executes (two configurations, non-TOF and TOF with TOF sensitivities):
+//  0: set_up with use_subset_sensitivities off (the entries 1..N-1 of the subset-sensitivity table alias ONE image), switched
+//     on, set_up again, N >= 3;  1: the same settings set_up twice, subset sensitivities on;  2: subset sensitivities on,
+//     N_large -> N_small;  3: subset sensitivities on -> off.  Final requests: the sensitivity of EVERY subset, the total,
+//     gradient+sensitivity, gradient and value of one subset.
+std::vector<json>
+fixed_cases(int /*tier*/)
+{
+  std::vector<json> out;
+  for (int cfg = 0; cfg < 2; ++cfg)
+    {
+      json c;
+      std::vector<int> balanced;
+      for (uint64_t seed = 0; seed < 200; ++seed)
+        { // the first generated small configuration that has a balanced number of subsets >= 3
+          vf::PrngSrc s(0xC05A + 104729 * seed + uint64_t(cfg));
+          c = gen_config(s, 20, cfg);
+          c["use_subset_sens"] = false;
+          if (cfg == 1)
+            c["use_tofsens"] = true;
+          c["sens_source"] = 0;
+          c["threshold_class"] = false;
+          c["second_object"] = false;
+          c["sum_check"] = false;
+          shared_ptr<Scanner> sc = vg::make_scanner(c["scanner"]);
+          shared_ptr<ProjDataInfo> pdi = vg::make_pdi(sc, c["pdi"]);
+          balanced.clear();
+          for (int L : legal_subsets(c, pdi))
+            if (L >= 3)
+              balanced.push_back(L);
+          if (!balanced.empty())
+            break;
+        }
+      if (balanced.empty())
+        continue;
+      const int N = balanced.front();
+      c["use_subset_sens"] = true;
+      c["num_subsets"] = N;
+      c["ms_literal"] = true;
+      c["final_touch"] = 0;
+      json ops = json::array();
+      for (int S = 0; S < N; ++S)
+        ops.push_back(json::array({ int(SENS_S), S }));
+      ops.push_back(json::array({ int(SENS_ALL), 0 }));
+      ops.push_back(json::array({ int(GRADSENS_S), N - 1 }));
+      ops.push_back(json::array({ int(GRAD_S), N - 1 }));
+      ops.push_back(json::array({ int(VALUE_S), 1 }));
+      c["ops"] = ops;
+      for (int h = 0; h < 4; ++h)
+        {
+          json k = c;
+          json st;
+          st["ops"] = json::array({ json::array({ int(SENS_S), 1 }), json::array({ int(GRAD_S), 0 }) });
+          st["touch"] = 0;
+          st["set"] = json::object();
+          if (h == 0)
+            st["set"]["use_subset_sens"] = false;
+          else if (h == 2)
+            st["set"]["num_subsets"] = balanced.back() > N ? balanced.back() : N + 1;
+          else if (h == 3)
+            {
+              k["use_subset_sens"] = false;
+              st["set"]["use_subset_sens"] = true;
+            }
+          k["hist"] = json::array({ st });
+          out.push_back(k);
+        }
+    }
+  return out;
 }
 
 // all 720 first-use orders on a few small configurations (thorough: 20 configurations)
@@ -1680,7 +2421,8 @@ the_property()
   p.check = check;
   p.nontrivial = nontrivial;
   p.enumerate = enumerate;
-  p.shrink_lists = { "ops" };
+  p.fixed_cases = fixed_cases;
+  p.shrink_lists = { "hist", "ops" };
   p.known_signature = known_signature;
   return p;
 }
